@@ -130,6 +130,8 @@ def check_C02(ctx):
     corr(ctx, 'G-rest', gens.local_rest(), project, exhaustive=True, describe=describe,
          note='end pointer inside a longer string (rest = @d, SP, HT, LF, dot)')
     corr(ctx, 'G-random-long', gens.local_random(ctx.rnd, 40000 if not ctx.thorough() else 400000), project, describe=describe)
+    corr(ctx, 'G-nul', ['L %s -' % hx(x) for x in gens.with_nul(list(gens.all_strings([b'a', b'.', b'"', b'\\', b' '], 3)))], project, describe=describe, exhaustive=True,
+         note='a NUL inside the range (outside the property: the scanners stop there; compared with the model all the same)')
     return finish(ctx, rule='L cases: is_{822,5321,5322,6531}_local on (s, rest); projection = accept/reject of the three ASCII scanners; '
                   'non-trivial = not rejected as empty; distinct by case line')
 
@@ -154,6 +156,7 @@ def check_C04(ctx):
          note='end pointer inside a longer string')
     rnd = gens.dom_random(ctx.rnd, 30000 if not ctx.thorough() else 300000)
     corr(ctx, 'G-random', gens.dom_lines(rnd), dproj, describe=describe, nontrivial=nontriv)
+    corr(ctx, 'G-nul', gens.dom_lines(gens.with_nul(gens.dom_class(3))), dproj, describe=describe, nontrivial=nontriv, exhaustive=True, note='a NUL inside the range')
     # underscore build
     lu = ctx.snap.lib(uscore=True)
     corr(ctx, 'uscore-build:G-class(len<=%d)' % (n - 1), gens.dom_lines(gens.dom_class(n - 1)), dproj, lib=lu, exhaustive=True, describe=describe, nontrivial=nontriv)
@@ -381,6 +384,7 @@ def check_C09(ctx):
     step_proof(ctx)
     doms = gens.reserved_domains(full=ctx.thorough())
     desc = lambda ln, a, b: 'is_special_domain / class of a reserved-looking domain differs from the model (C09_reserved_exactly: special iff last label in {test,example,invalid,localhost,onion} or last two labels example.{com,net,org}): implementation %s, model %s' % (a, b)
+    doms += [p + b'x' * n for n in range(0, 70) for p in (b'', b'a.', b'example.', b'a.b.')] + [d for d in gens.dom_boundary()[::5]]
     corr(ctx, 'is_special_domain', ['S %s' % hx(d) for d in doms], lambda ln, o: o, exhaustive=True, describe=desc,
          nontrivial=lambda ln, o: True, note='0-3 labels of lengths 1-63 and the words example/mailbox/test/com... before each reserved suffix and its one-edit neighbours, several case patterns')
     valid = [d for d in doms if not d.endswith(b'.') and b'..' not in d and not d.startswith(b'.')]
@@ -622,6 +626,8 @@ def check_C15(ctx):
     for z in (-2147483648, -1, 4, 5, 99, 2147483647):
         al.append('A i s %s x r%d s x %s x r1 s x f' % (gens.enc_e(b'a@b.com', orc), z, gens.enc_e(b'bad', orc)))
         al.append('A i r%d s x f' % z)
+        al.append('A i s %s x r%d s x %s x f' % (gens.enc_e(b'a@b.org', orc, fault=-304), z, gens.enc_e(b'a@b.org', orc)))
+        al.append('A i s %s r%d s x r0 s x f' % (gens.enc_e(b'a@xn--a.ru', orc, fault=-312, buf=1), z))
     corr(ctx, 'facade(ret, errcode, message)', al, lambda ln, o: o, describe=lambda ln, a, b: 'facade outcome differs from model: %s vs %s' % (a, b),
          nontrivial=lambda ln, o: ' R0' in o)
     # truth predicates evaluated on implementation outputs alone (a few that need no model)
@@ -885,6 +891,9 @@ def check_C05(ctx):
     desc = lambda ln, a, b: 'literal verdict differs from the model of theorems C05_*: implementation %s, model %s' % (a, b)
     pl = []
     for c in contents + small:
+        for k in '46P':
+            pl.append('%s %s %s' % (k, hx(c), hx(b']'))); pl.append('%s %s -' % (k, hx(c)))
+    for c in gens.with_nul([x for x in contents if len(x) < 24][::4]):
         for k in '46P':
             pl.append('%s %s %s' % (k, hx(c), hx(b']'))); pl.append('%s %s -' % (k, hx(c)))
     corr(ctx, 'parsers(is_ipv4/is_ipv6/is_ipaddr)', pl, lambda ln, o: o, describe=desc, nontrivial=lambda ln, o: len(ln) > 8,
@@ -1208,7 +1217,9 @@ def c06_corpus(ctx):
         for k in '46P':
             I.append('%s %s %s' % (k, hx(c), hx(b']'))); I.append('%s %s -' % (k, hx(c)))
     S = ['S %s' % hx(d) for d in gens.reserved_domains()] + ['T %s' % hx(d) for d in gens.reserved_domains()[::3]] + ['S %s' % hx(d) for d in gens.dom_class(4)]
+    S += ['S %s' % hx(d) for d in gens.dom_boundary()] + ['T %s' % hx(d) for d in gens.dom_boundary()[::4]] + ['S %s' % hx(b'b.' + b'x' * n) for n in range(0, 300)]
     addrs = gens.addr_class(4) + gens.addr_structured() + gens.addr_boundary() + [b'u@[' + c + b']' for c in gens.ip_contents()[::2]]
+    addrs += [b'u@' + d for d in gens.dom_boundary()[::2]] + [b'u@b.' + b'x' * n for n in range(1, 80)]
     # every byte value at the structural positions of an address
     for c in range(1, 256):
         ch = bytes([c])
